@@ -132,7 +132,13 @@ func LayoutOf(t reflect.Type) (*Layout, error) {
 			f.WireType, f.ElemSize = p.wire, p.size
 		} else {
 			p, ok := primitive[gt.Name()]
-			if !ok || gt.PkgPath() != "" {
+			if gt.PkgPath() != "" {
+				// a defined type over a primitive (type Celsius float32; an enum type without its mavenum tag): whether the library
+				// accepts such a field is its business (C17 says it must not); IF it does, the field is a field of the underlying
+				// primitive type and has that type's place in the layout
+				p, ok = primitive[gt.Kind().String()]
+			}
+			if !ok {
 				return nil, fmt.Errorf("field %s: unsupported Go type %v", sf.Name, gt)
 			}
 			f.WireType, f.ElemSize = p.wire, p.size
@@ -227,7 +233,7 @@ func setElemBits(v reflect.Value, f *Field, bits uint64) {
 	switch v.Kind() {
 	case reflect.Float32:
 		// keep NaN payloads: go through bits, not through float64 conversion of a signalling NaN
-		p := v.Addr().Interface().(*float32)
+		p := (*float32)(v.Addr().UnsafePointer()) // (also for defined types over float32)
 		*p = math.Float32frombits(uint32(bits))
 	case reflect.Float64:
 		v.SetFloat(math.Float64frombits(bits))
@@ -247,7 +253,7 @@ func setElemBits(v reflect.Value, f *Field, bits uint64) {
 // float32Bits reads a float32 field exactly (reflect's Float() widens and may quiet a signalling NaN).
 func float32Bits(v reflect.Value) uint64 {
 	if v.CanAddr() {
-		return uint64(math.Float32bits(*(v.Addr().Interface().(*float32))))
+		return uint64(math.Float32bits(*(*float32)(v.Addr().UnsafePointer())))
 	}
 	return uint64(math.Float32bits(float32(v.Float())))
 }
